@@ -44,6 +44,8 @@ def check_stat(ctx, case):
         ctx.violation('stat-exception:%s' % type(e).__name__, 'get_cycle_stat raised %s: %s' % (type(e).__name__, str(e)[:100]), case)
         return
     ctx.count('stat_calls:' + fname)
+    if K and any(np.any(np.diff(np.where(labels == k)[0]) > 1) for k in range(K)):
+        ctx.count('stat_calls_with_split_cycles')
     got = np.asarray(got, dtype=float)
     if out == 'samples':
         ws = np.full(len(labels), np.nan)
@@ -178,6 +180,12 @@ def gen_case(rng):
             labels = np.full(int(rng.integers(1, 30)), -1)
         else:
             labels = gens.label_vector(rng, gaps=bool(rng.random() < .8))
+            if rng.random() < .25 and len(labels) > 4:
+                # "any labelling": unlabelled samples *inside* a cycle (the cycle's label resumes afterwards)
+                for _ in range(int(rng.integers(1, 4))):
+                    i = int(rng.integers(1, len(labels) - 1))
+                    if labels[i] >= 0 and (labels == labels[i]).sum() > 1:
+                        labels[i] = -1
         vals = rng.standard_normal(len(labels)) if rng.random() < .7 else rng.integers(-5, 6, len(labels)).astype(float)
         return {'kind': 'stat', 'labels': labels, 'values': vals, 'func': gens.pick(rng, sorted(FUNCS)),
                 'out': 'samples' if rng.random() < .35 else None}
